@@ -238,12 +238,13 @@ def led__arrow_operator(self: XPathToken, left: XPathToken) -> XPathToken:
     if next_token.symbol == '$':
         self[:] = left, self.parser.expression(80)
     elif isinstance(next_token, ProxyToken):
+        # A name shared by functions of several namespaces (e.g. fn:reverse and
+        # array:reverse): it's resolved by its nud() when it's the current token.
         self.parser.parse_arguments = False
         try:
-            self[:] = left, next_token.nud()
+            self[:] = left, self.parser.expression(80)
         finally:
             self.parser.parse_arguments = True
-        self.parser.advance()
     elif isinstance(next_token, XPathFunction):
         self[:] = left, next_token
         if next_token.label == 'kind test':
